@@ -35,7 +35,14 @@ class Tok:
         return f"<{self.name}>"
 
     def __eq__(self, other: object) -> bool:
-        return isinstance(other, Tok) and other.name == self.name and other.attrs == self.attrs
+        if not isinstance(other, Tok) or other.name != self.name:
+            return False
+        if "__ident__" in self.attrs or "__ident__" in other.attrs:
+            return True  # identified by name alone (variables: their attrs may refer back to themselves)
+        return other.attrs == self.attrs
+
+    def classes(self) -> set[str]:
+        return {self.attrs.get("__class__", "")} | set(self.attrs.get("__bases__", ()))
 
     def __hash__(self) -> int:
         return hash(self.name)
@@ -188,14 +195,28 @@ class PyEval(MiniEval):
             return out
         if isinstance(e, ast.List):
             return [self.ev(x, env) for x in e.elts]
-        if isinstance(e, ast.Dict) and not e.keys:
-            return {}
+        if isinstance(e, ast.Dict):
+            out_d: dict = {}
+            for k, v in zip(e.keys, e.values):
+                if k is None:
+                    sub = self.ev(v, env)
+                    if not isinstance(sub, dict):
+                        raise Unsupported("** of a non-dict")
+                    out_d.update(sub)
+                else:
+                    out_d[self.ev(k, env)] = self.ev(v, env)
+            return out_d
         if isinstance(e, ast.Subscript):
             if ast.unparse(e) in env:
                 return env[ast.unparse(e)]
             v = self.ev(e.value, env)
             if isinstance(v, Tok) and "__getitem__" in v.attrs:
                 return v.attrs["__getitem__"](self.ev(e.slice, env))
+            if isinstance(v, dict):
+                k = self.ev(e.slice, env)
+                if k not in v:
+                    raise Raised(f"KeyError {k!r}", "KeyError")
+                return v[k]
             if isinstance(v, (list, tuple, str)):
                 if isinstance(e.slice, ast.Slice):
                     lo = self.ev(e.slice.lower, env) if e.slice.lower else None
@@ -296,6 +317,18 @@ class PyEval(MiniEval):
                 if len(p.patterns) == 1:
                     return self.match(p.patterns[0], v, env)
                 return not p.patterns
+            if cn and not p.patterns:
+                # repository class: tokens carry their class and base-class names
+                if not isinstance(v, Tok):
+                    return False
+                if cn.split(".")[-1] not in v.classes():
+                    return False
+                for k, sub in zip(p.kwd_attrs, p.kwd_patterns):
+                    if k not in v.attrs:
+                        raise Unsupported(f"token {v!r} has no attribute {k}")
+                    if not self.match(sub, v.attrs[k], env):
+                        return False
+                return True
             raise Unsupported(f"class pattern {ast.unparse(p.cls)}")
         if isinstance(p, ast.MatchSequence):
             if not isinstance(v, (list, tuple)):
@@ -332,6 +365,16 @@ class PyEval(MiniEval):
             if isinstance(recv, list) and m == "append":
                 recv.append(A()[0])
                 return None
+            if isinstance(recv, list) and m == "extend" and isinstance(A()[0], (list, tuple, set, frozenset)):
+                recv.extend(sorted(A()[0], key=repr) if isinstance(A()[0], (set, frozenset)) else A()[0])
+                return None
+            if isinstance(recv, list) and m == "pop":
+                if not recv:
+                    raise Raised("pop from empty list", "IndexError")
+                return recv.pop(*A())
+            if isinstance(recv, set) and m in ("add", "discard"):
+                getattr(recv, m)(A()[0])
+                return None
             if isinstance(recv, dict) and m in ("keys", "values", "items") and not node.args:
                 return {"keys": set(recv), "values": list(recv.values()), "items": list(recv.items())}[m]
             return Opaque(ast.unparse(node)[:50])
@@ -344,7 +387,9 @@ class PyEval(MiniEval):
                 return (not isinstance(v, Tok)) and isinstance(v, ts)
             if isinstance(v, Tok) and all(isinstance(x, Opaque) for x in ts):
                 kinds = {x.what.split(".")[-1] for x in ts}
-                return v.attrs.get("__class__") in kinds
+                return bool(v.classes() & kinds)
+            if not isinstance(v, Tok) and all(isinstance(x, Opaque) for x in ts):
+                return False  # a plain Python value is not an instance of a repository class
             raise Unsupported(f"isinstance against {t!r}")
         if fn == "type" and len(node.args) == 1:
             v = A()[0]
@@ -373,6 +418,14 @@ class PyEval(MiniEval):
             return self.ev(node.args[1], env)  # the type argument is not evaluated
         if fn in ("list", "tuple") and len(node.args) == 1 and isinstance(A()[0], (list, tuple)):
             return list(A()[0]) if fn == "list" else tuple(A()[0])
+        if fn in ("list", "tuple") and len(node.args) == 1 and isinstance(A()[0], (set, frozenset)):
+            xs = sorted(A()[0], key=repr)  # any order: callers of set->list conversions must not depend on it
+            return xs if fn == "list" else tuple(xs)
+        if fn in ("set", "frozenset") and not node.keywords:
+            if not node.args:
+                return set()
+            if isinstance(A()[0], (list, tuple, set, frozenset)):
+                return set(A()[0])
         if fn in ("min", "max") and node.args and all(isinstance(x, (int, float)) for x in A()):
             return (min if fn == "min" else max)(A())
         if fn == "sum" and len(node.args) == 1 and isinstance(A()[0], list) and all(isinstance(x, (int, float)) for x in A()[0]):
